@@ -101,6 +101,7 @@ type Engine struct {
 	burst     int64
 	burstOn   bool
 	idleJumps int
+	live      []*task // tasks that are not finished (the scheduler scans these; e.tasks keeps all for the verdicts)
 	rng       *world.Rng
 	res       *Result
 	h         interface{ Write([]byte) (int, error) }
@@ -187,6 +188,10 @@ func install() {
 			return nil
 		}
 		SiteHits[site]++
+		if rt := e.running; len(e.tasks) > int(maxLibTasks*e.scale) && !rt.aborting {
+			rt.aborting = true
+			panic(abortSentinel{fmt.Sprintf("goroutine budget exceeded: the world started more than %d goroutines\n%s", int(maxLibTasks*e.scale), trimStack(string(debug.Stack())))})
+		}
 		t := e.newTask(fmt.Sprintf("lib@%d", site), true)
 		t.site = site
 		t.phase = e.running.phase
@@ -307,8 +312,13 @@ func (e *Engine) newTask(name string, lib bool) *task {
 		t.prio = e.rng.Intn(1 << 20)
 	}
 	e.tasks = append(e.tasks, t)
+	e.live = append(e.live, t)
 	return t
 }
+
+// maxLibTasks bounds the goroutines the code under test may start in one world (times the budget
+// scale): a loop that starts one per iteration is a non-terminating world like any other.
+const maxLibTasks = 5_000
 
 func (e *Engine) park(t *task, site int32, kind int) {
 	t.state = stParked
@@ -501,6 +511,7 @@ func (e *Engine) choose(cand []*task) *task {
 
 // runPhase schedules until nothing is runnable and nothing sleeps.
 func (e *Engine) runPhase() {
+	e.idleJumps = 0 // at most ten per phase: a ticker that nobody stops would otherwise keep the phase alive for ever
 	for {
 		synctest.Wait()
 		if prev := e.running; prev != nil && prev.state == stRunning {
@@ -515,7 +526,19 @@ func (e *Engine) runPhase() {
 		var cand, snoozers []*task
 		var forced *task
 		var minWake time.Duration = -1
-		for _, t := range e.tasks {
+		// only tasks that are not finished are looked at (a world may start very many goroutines)
+		k := 0
+		for _, t := range e.live {
+			if t.state != stDone {
+				e.live[k] = t
+				k++
+			}
+		}
+		for i := k; i < len(e.live); i++ {
+			e.live[i] = nil
+		}
+		e.live = e.live[:k]
+		for _, t := range e.live {
 			if t.state != stParked {
 				continue
 			}
@@ -545,8 +568,8 @@ func (e *Engine) runPhase() {
 			}
 			// nothing can run and no task sleeps: timers the code under test armed itself (time.AfterFunc,
 			// tickers, time.After) may still be pending inside the bubble. Let an hour of simulated time
-			// pass, a few times, before calling the phase finished.
-			if e.idleJumps < 3 && e.anyUnfinished() {
+			// pass, at most ten times per phase, before calling the phase finished.
+			if e.idleJumps < 10 && e.anyUnfinished() {
 				e.idleJumps++
 				time.Sleep(time.Hour)
 				e.res.Faults["clock-jump-idle-1h"]++
@@ -554,7 +577,6 @@ func (e *Engine) runPhase() {
 			}
 			return
 		}
-		e.idleJumps = 0
 		var t *task
 		if forced != nil {
 			t = forced
@@ -592,7 +614,7 @@ func (e *Engine) runPhase() {
 }
 
 func (e *Engine) anyUnfinished() bool {
-	for _, t := range e.tasks {
+	for _, t := range e.live {
 		if t.state != stDone {
 			return true
 		}
@@ -834,7 +856,7 @@ func (e *Engine) bubble() {
 			// (lazily built tables, pools) for the interleaved run it is the reference of
 			resetGlobals()
 			verifrt.ResetSync()
-			e.tasks = nil
+			e.tasks, e.live = nil, nil
 			e.rng = world.NewRng(1)
 			e.burstOn = false
 			e.outs = make([]*tasks.Outcome, len(w.Tasks))
@@ -864,7 +886,7 @@ func (e *Engine) bubble() {
 		resetGlobals()
 		verifrt.ResetSync()
 	}
-	e.tasks = nil
+	e.tasks, e.live = nil, nil
 	e.lastRun = -1
 	e.rng = world.NewRng(w.Sched.Seed)
 	e.outs = make([]*tasks.Outcome, len(w.Tasks))
